@@ -194,9 +194,11 @@ def run(chk):
     accessor(chk, w)
     pairing(chk, w)
     offsets(chk, w)
-    from . import c01_cache, c01_absent
+    from . import c01_cache, c01_absent, c01_addscore, c01_merge
     c01_cache.run(chk, w)
     c01_absent.run(chk, w)
+    c01_addscore.run(chk, w)
+    c01_merge.run(chk, w)
 
 
 def dispatch(chk, w, enum, floor):
